@@ -6,7 +6,7 @@ already set the dirty flag).
 -/
 import PsdVerif.Lemmas.TreeStep2
 
-namespace PsdVerif.Tree
+namespace PsdVerif.TreeSt
 
 /-! ### the only exception a traversal can raise is RecursionError -/
 
@@ -635,4 +635,4 @@ theorem opSetOffset_ref (cfg : Cfg) (s : State) (x : Id) (h : Bool) (v : Int) : 
   · exact Ref.same (SameTree.refl s)
   · exact Ref.of_not_error rfl
 
-end PsdVerif.Tree
+end PsdVerif.TreeSt
